@@ -67,7 +67,13 @@ impl<'a> Lexer<'a> {
 
         if is_float {
             match value.parse::<f64>() {
-                Ok(f) => self.add_token(TokenKind::Float(f), start),
+                Ok(f) if f.is_finite() => self.add_token(TokenKind::Float(f), start),
+                Ok(_) => {
+                    self.errors.push(CompileError::new(
+                        format!("Float literal out of range: {}", value),
+                        Span::new(start, self.current_pos),
+                    ));
+                }
                 Err(_) => {
                     self.errors.push(CompileError::new(
                         format!("Invalid float literal: {}", value),
